@@ -459,7 +459,7 @@ def run(ctx):
                           {"stream": "march", "ops": grp, "oracle": o})
         return
 
-    npk = ctx.budget(6000, 400000)
+    npk = ctx.budget(6000, 1000000)
     ops = vlib.corpus_ops("C02")
     gen_ops, meta = generate(ctx.rng, npk)
     ops += gen_ops
@@ -540,9 +540,8 @@ def run(ctx):
             ctx.branch("gen-start-upper-boundary")
 
     # 3. exact run of the same definitions (Rat) on a sample: ties, theorem statements, deviation
-    sample_ids = []
     pk = [op for op in ops if op.startswith("pkt")]
-    nrat = ctx.budget(400, 4000)
+    nrat = ctx.budget(400, 6000)
     step = max(1, len(pk) // nrat)
     rat_ops = []
     for op in pk[::step][:nrat]:
